@@ -66,6 +66,14 @@ func (ex *Exec) goScalar(x *smt.Term, t types.Type) interface{} {
 // fmtVal renders v (dynamic type t) for verb 'v' or 's'.
 func (ex *Exec) fmtVal(st *State, v Value, t types.Type, verb byte, top bool) (Str, fmtStatus) {
 	C := ex.C
+	ex.fmtDepth++
+	defer func() { ex.fmtDepth-- }()
+	if ex.fmtDepth > 200 {
+		// fmt follows slices, maps and interfaces without cycle detection: a value that contains itself recurses until
+		// the stack overflows
+		ex.report(st, "unwind", "call depth exceeds 400 frames (unbounded recursion) in fmt formatting a value that contains itself", nil)
+		panic(pathEnd{"call depth"})
+	}
 	switch x := v.(type) {
 	case Iface:
 		if x.T == nil {
